@@ -17,6 +17,8 @@ import (
 	authpb "istio.io/api/security/v1beta1"
 	typepb "istio.io/api/type/v1beta1"
 	"istio.io/istio/pilot/pkg/model"
+
+	"verifharness/internal/wire"
 )
 
 func strForm(v, s string) bool {
@@ -851,11 +853,22 @@ func (s *sut) providerTarget(n string) (label string, http, ok bool) {
 	if p.http && p.pathPrefix != "" && !strings.HasPrefix(p.pathPrefix, "/") {
 		return "", false, false
 	}
-	kind := "grpc"
+	// the target in the canonical form of canon.go: kind, cluster, authority / URI host, failure mode, status on error
+	// (HTTP filters only: the network ext_authz filter has none), path prefix (HTTP kind)
+	kind, prefix := "grpc", ""
 	if p.http {
-		kind = "http"
+		kind, prefix = "http", p.pathPrefix
 	}
-	return fmt.Sprintf("%s:outbound|%d||%s", kind, p.port, hostname), p.http, true
+	st, fo := "nil", "0"
+	if p.status != "" && !s.shapeTCP {
+		c, _ := strconv.ParseInt(p.status, 10, 32)
+		st = fmt.Sprint(c)
+	}
+	if p.failOpen {
+		fo = "1"
+	}
+	return fmt.Sprintf("(%s cluster=%s host=%s failopen=%s status=%s prefix=%s)", kind,
+		wire.Enc(fmt.Sprintf("outbound|%d||%s", p.port, hostname)), wire.Enc(hostname), fo, st, wire.Enc(prefix)), p.http, true
 }
 
 // customAsks: the extension providers whose authorizer the request has to be sent to (sorted): the CUSTOM
